@@ -3,6 +3,15 @@ import JubakoModel.Model.ContentSpec
 namespace Jubako
 set_option maxRecDepth 8000
 
+theorem getD_append_lt {α : Type} (l l' : List α) (d : α) (n : Nat) (h : n < l.length) :
+    (l ++ l').getD n d = l.getD n d := by
+  simp [List.getD_eq_getElem?_getD, List.getElem?_append_left h]
+
+theorem getD_concat_length {α : Type} (l : List α) (a d : α) (n : Nat) (h : n = l.length) :
+    (l ++ [a]).getD n d = a := by
+  subst h
+  simp [List.getD_eq_getElem?_getD]
+
 /-! ### `findCluster` / `resolve` on lists with distinct ids -/
 
 theorem findCluster_of_mem {cs : List Cluster} (hn : (cs.map (·.idx)).Nodup) {c : Cluster}
@@ -19,7 +28,7 @@ theorem findCluster_of_mem {cs : List Cluster} (hn : (cs.map (·.idx)).Nodup) {c
         apply hn.1
         rw [e]
         exact List.mem_map_of_mem hm
-      simp [List.find?_cons, hne, ih hn.2 hm]
+      simp [hne, ih hn.2 hm]
 
 theorem findCluster_eq_some_iff {cs : List Cluster} (hn : (cs.map (·.idx)).Nodup) {idx : Nat}
     {c : Cluster} : findCluster cs idx = some c ↔ c ∈ cs ∧ c.idx = idx := by
@@ -63,7 +72,7 @@ theorem resolve_of_mem {cs : List Cluster} (hn : (cs.map (·.idx)).Nodup) {c : C
 
 theorem mem_allClusters {s : Creator} {c : Cluster} :
     c ∈ s.allClusters ↔ c ∈ s.closed ∨ s.raw = some c ∨ s.comp = some c := by
-  simp [Creator.allClusters, or_assoc]
+  simp [Creator.allClusters]
 
 /-- `add` either opens a new cluster `⟨next, comp, [data]⟩` (the set of clusters grows by it) or
     appends the blob to one existing non-full cluster of the right kind. -/
@@ -82,15 +91,144 @@ theorem add_step (s : Creator) (it : Item)
     | none =>
       left
       simp [Creator.allClusters, hs]
-      sorry
+      exact List.Perm.append_left _ (List.perm_append_singleton _ _).symm
     | some c =>
       by_cases hf : c.isFull it.data.length = true
       · left
         simp [Creator.allClusters, hs, hf]
-        sorry
+        exact List.Perm.append_left _ ((List.perm_append_singleton _ _).symm.cons _)
       · right
         simp [Creator.allClusters, hs, hf]
-        sorry
+        exact ⟨c, s.closed, s.comp.toList, rfl, rfl, by simpa using hf, hr c hs, rfl, rfl⟩
+  · cases hs : s.comp with
+    | none =>
+      left
+      simp [Creator.allClusters, hs]
+    | some c =>
+      by_cases hf : c.isFull it.data.length = true
+      · left
+        simp [Creator.allClusters, hs, hf]
+        exact List.Perm.append_left _ List.perm_middle.symm
+      · right
+        simp [Creator.allClusters, hs, hf]
+        exact ⟨c, s.closed ++ s.raw.toList, [], by simp, by simp, by simpa using hf, hc c hs, rfl, rfl⟩
+
+theorem add_raw_kind (s : Creator) (it : Item)
+    (hr : ∀ c, s.raw = some c → c.compressed = false) :
+    ∀ c, (s.add it).1.raw = some c → c.compressed = false := by
+  unfold Creator.add
+  cases hcomp : it.comp
+  · cases hs : s.raw with
+    | none => simp
+    | some c =>
+      by_cases hf : c.isFull it.data.length = true
+      · simp [hf]
+      · simp [hf]
+        exact hr c hs
+  · cases hs : s.comp with
+    | none => simpa using hr
+    | some c =>
+      by_cases hf : c.isFull it.data.length = true
+      · simpa [hf] using hr
+      · simpa [hf] using hr
+
+theorem add_comp_kind (s : Creator) (it : Item)
+    (hc : ∀ c, s.comp = some c → c.compressed = true) :
+    ∀ c, (s.add it).1.comp = some c → c.compressed = true := by
+  unfold Creator.add
+  cases hcomp : it.comp
+  · cases hs : s.raw with
+    | none => simpa using hc
+    | some c =>
+      by_cases hf : c.isFull it.data.length = true
+      · simpa [hf] using hc
+      · simpa [hf] using hc
+  · cases hs : s.comp with
+    | none => simp
+    | some c =>
+      by_cases hf : c.isFull it.data.length = true
+      · simp [hf]
+      · simp [hf]
+        exact hc c hs
+
+/-! ### the invariant -/
+
+/-- Invariant of the creator state after inserting `items`.  `located` is the order-free form of
+    "every recorded address resolves to its item"; together with `ids_nodup` it yields the
+    `resolve` statement (`CreatorInv.resolves`). -/
+structure CreatorInv (s : Creator) (items : List Item) : Prop where
+  infos_len : s.infos.length = items.length
+  located : ∀ i, i < items.length → ∃ c ∈ s.allClusters,
+    c.idx = (s.infos.getD i (0,0)).1 ∧
+    c.blobs[(s.infos.getD i (0,0)).2]? = some (items.getD i ⟨[], false⟩).data ∧
+    c.compressed = (items.getD i ⟨[], false⟩).comp
+  ids_lt : ∀ c ∈ s.allClusters, c.idx < s.next
+  ids_nodup : (s.allClusters.map (·.idx)).Nodup
+  count : s.allClusters.length = s.next
+  nonempty : ∀ c ∈ s.allClusters, 1 ≤ c.blobs.length ∧ c.blobs.length ≤ Consts.maxBlobsPerCluster
+  raw_kind : ∀ c, s.raw = some c → c.compressed = false
+  comp_kind : ∀ c, s.comp = some c → c.compressed = true
+  blob_lt : ∀ info ∈ s.infos, info.2 < Consts.maxBlobsPerCluster
+
+theorem CreatorInv.resolves {s : Creator} {items : List Item} (h : CreatorInv s items) :
+    ∀ i (_ : i < items.length), resolve s.allClusters (s.infos.getD i (0,0)) =
+      some ((items.getD i ⟨[], false⟩).data, (items.getD i ⟨[], false⟩).comp) := by
+  intro i hi
+  obtain ⟨c, hc, h1, h2, h3⟩ := h.located i hi
+  exact resolve_of_mem h.ids_nodup hc h1 h2 h3
+
+/-- 1. -/
+theorem creatorInv_init : CreatorInv Creator.init [] := by
+  constructor <;> simp [Creator.init, Creator.allClusters]
+
+theorem not_full_lt {c : Cluster} {n : Nat} (hf : c.isFull n = false)
+    (hle : c.blobs.length ≤ Consts.maxBlobsPerCluster) :
+    c.blobs.length < Consts.maxBlobsPerCluster := by
+  unfold Cluster.isFull at hf
+  simp only [Bool.or_eq_false_iff, beq_eq_false_iff_ne] at hf
+  have := hf.1
+  omega
+
+/-- 2. -/
+theorem creatorInv_add (s : Creator) (items : List Item) (it : Item) (h : CreatorInv s items) :
+    CreatorInv (s.add it).1 (items ++ [it]) := by
+  have hrk := add_raw_kind s it h.raw_kind
+  have hck := add_comp_kind s it h.comp_kind
+  have hlen := h.infos_len
+  rcases add_step s it h.raw_kind h.comp_kind with ⟨hnext, hinfos, hperm⟩ | ⟨c, l1, l2, hall, hall', hnf, hkind, hnext, hinfos⟩
+  · -- a new cluster is opened
+    have hmem : ∀ x, x ∈ (s.add it).1.allClusters ↔
+        x ∈ s.allClusters ∨ x = ⟨s.next, it.comp, [it.data]⟩ := by
+      intro x; rw [hperm.mem_iff]; simp
+    refine ⟨?_, ?_, ?_, ?_, ?_, ?_, hrk, hck, ?_⟩
+    · simp [hinfos, hlen]
+    · intro i hi
+      by_cases hlt : i < items.length
+      · obtain ⟨c, hc, h1, h2, h3⟩ := h.located i hlt
+        refine ⟨c, (hmem c).2 (Or.inl hc), ?_⟩
+        rw [hinfos, getD_append_lt _ _ _ _ (by omega), getD_append_lt _ _ _ _ hlt]
+        exact ⟨h1, h2, h3⟩
+      · have hi' : i = items.length := by simp at hi; omega
+        subst hi'
+        refine ⟨⟨s.next, it.comp, [it.data]⟩, (hmem _).2 (Or.inr rfl), ?_⟩
+        rw [hinfos, getD_concat_length _ _ _ _ hlen.symm, getD_concat_length _ _ _ _ rfl]
+        simp
+    · intro x hx
+      rcases (hmem x).1 hx with hx | rfl
+      · have := h.ids_lt x hx; omega
+      · simp [hnext]
+    · rw [← (hperm.map (·.idx)).nodup_iff.symm]
+      sorry
+    · rw [hperm.length_eq, hnext]; simp [h.count]
+    · intro x hx
+      rcases (hmem x).1 hx with hx | rfl
+      · exact h.nonempty x hx
+      · simp [Consts.maxBlobsPerCluster]
+    · intro info hinfo
+      rw [hinfos] at hinfo
+      rcases List.mem_append.1 hinfo with hi | hi
+      · exact h.blob_lt info hi
+      · simp at hi; subst hi; simp [Consts.maxBlobsPerCluster]
   · sorry
 
 end Jubako
